@@ -111,6 +111,52 @@ def judge(rep, cells, table, route, literal, doc, g, cases, out, snap_text: str,
                 pass
 
 
+def enum_reuse(rep, d) -> None:
+    """A default belongs to the USE of an enum, not to the (shared) class: same-named, same-valued enums with different defaults."""
+    combos = [("a", "b"), (None, "b"), ("a", None), ("b", "b"), ("a", "zzz")]
+    for literal in (False, True):
+        for order in ("component-first", "holder-first"):
+            schemas = {}
+            exp = {}
+            for i, (cdef, idef) in enumerate(combos):
+                comp = {"type": "string", "enum": ["a", "b"], **({"default": cdef} if cdef is not None else {})}
+                inl = {"type": "string", "enum": ["a", "b"], **({"default": idef} if idef is not None else {})}
+                h = {"type": "object", "properties": {"e": inl, "viaref": {"allOf": [{"$ref": f"#/components/schemas/Reuse{i}E"}]}}}
+                items = [(f"Reuse{i}E", comp), (f"Reuse{i}", h)]
+                if order == "holder-first":
+                    items.reverse()
+                schemas.update(dict(items))
+                exp[f"Reuse{i}"] = (cdef, idef)
+            pkg = f"reuse{int(literal)}{order[0]}"
+            g = gen.generate(gen.mkdoc(schemas=schemas), d / pkg, literal_enums=literal)
+            if g["exc"] or g["rejected"]:
+                rep.violate("C13/enum-reuse/generator-crash", f"{(g['exc'] or str(g['diags'][:1]))[-300:]}")
+                continue
+            texts = [(x["header"] + "\n" + x["detail"]) for x in g["diags"]]
+            cases = [{"cls": k, "prop": "e", "wires": [], "construct_empty": True} for k in exp]
+            out = codec.run_sandbox(d, pkg, cases)
+            if "__crash__" in out:
+                rep.violate("C13/enum-reuse/package-broken", out["__crash__"][-300:])
+                continue
+            for k, (cdef, idef) in exp.items():
+                rr = out["results"][k]
+                rep.count(1, ("enum-reuse", k, literal, order))
+                tag = f"{'literal' if literal else 'class'}/{order}"
+                if idef == "zzz":
+                    if not rr.get("__missing__") and rr.get("__ctor__", {}).get("py") != "Unset" or (not rr.get("__missing__") and not any(k in t for t in texts)):
+                        if not any(k in t for t in texts):
+                            rep.violate(f"C13/enum-reuse/invalid-default-not-diagnosed/{tag}", f"{k}: inline enum default 'zzz' is not a member but nothing is reported", observed=rr.get("__ctor__"))
+                    continue
+                if rr.get("__missing__"):
+                    rep.violate(f"C13/enum-reuse/holder-missing/{tag}", f"{k} not generated: {[t[:120] for t in texts if k in t][:1]}")
+                    continue
+                enc = rr["__ctor__"].get("enc")
+                want = "__ABSENT__" if idef is None else idef
+                if enc != want:
+                    rep.violate(f"C13/enum-reuse/default-of-other-use/{tag}", f"{k}.e declares default {idef!r} (the same-named component declares {cdef!r}) but omitting the argument encodes {enc!r}",
+                                component_default=cdef, inline_default=idef, got=enc)
+
+
 def run(rep) -> None:
     quick = rep.tier == "quick"
     d = scratch("c13-")
@@ -145,6 +191,7 @@ def run(rep) -> None:
                 # through a reference / allOf override the outcome classes are the same table (re-conversion against the referenced / merged type)
                 pass
             judge(rep, cells, mapped, route, literal, doc, g, cases, out, "", trace)
+        enum_reuse(rep, d)
         # code -> spec: outcomes of the direct route validated against Convert.tla by TLC
         (d / "obs.ndjson").write_text("\n".join(json.dumps(e) for e in trace) + "\n")
         tres = tlc.run_tlc("ConvertTrace.tla", "ConvertTrace.cfg", workers=1, env={"TRACE_FILE": str(d / "obs.ndjson")})
